@@ -628,3 +628,8 @@ CASES["C02"] = [c for c in CASES["C02"] if c[0] != "offset subtracted but never 
     ("offset subtracted but never added to the pointers", "mutant", LAYRESF, "        for operand, offset in zip(op.operands, offsets):\n            pointer: Operation = memref.ExtractAlignedPointerAsIndexOp.get(operand)\n            pointer_ops.append(pointer)\n            if offset != 0:\n                offset_op = arith.ConstantOp.from_int_and_width(offset, IndexType())\n                pointer = arith.AddiOp(pointer, offset_op, IndexType())\n                pointer_ops.extend([offset_op, pointer])\n            pointers.append(pointer)",
      "        for operand in op.operands:\n            pointer: Operation = memref.ExtractAlignedPointerAsIndexOp.get(operand)\n            pointer_ops.append(pointer)\n            pointers.append(pointer)", ["C02.offset"]),
 ]
+
+TSLIR = "snaxc/ir/tsl/tiled_strided_layout.py"
+CASES["C05"] += [
+    ("twin: F-28 repaired (search ends at a dynamic stride)", "twin", TSLIR, "                if stride_self.step is None or stride_self.bound is None:\n                    current_stride = None\n", "                if stride_self.step is None or stride_self.bound is None:\n                    return result\n", []),
+]
